@@ -64,6 +64,19 @@ func (c12) step(t []string) string {
 		s := parseInts(t[1])
 		slices.Fill(s, atoi(t[2]))
 		return fmtInts(s)
+	case "insertalias":
+		// insertalias <list> <k>: the values to insert are the k cells lying directly BEHIND the destination in its own backing array (its spare
+		// capacity), inserted at index len: argument aliasing.  result: the contents afterwards
+		need(t, 3)
+		vals, k := parseInts(t[1]), atoi(t[2])
+		backing := make([]int, len(vals)+k)
+		copy(backing, vals)
+		for i := 0; i < k; i++ {
+			backing[len(vals)+i] = 100 + i
+		}
+		dest := backing[:len(vals):len(backing)]
+		slices.InsertSlice(&dest, len(vals), backing[len(vals):len(vals)+k])
+		return fmtInts(dest)
 	case "fillz":
 		// type instantiations other than int: <n> <kind>; the result is, per element, 1 when the element IS the value filled in
 		// kind 0: []float64 filled with -0.0 (sign observed)   1: [][]int filled with [7] (not comparable)   2: Repeat(-0.0, n)
